@@ -88,6 +88,14 @@ def build(spec, **override):
     D, N = spec["D"], spec["N"]
     L = override.get("L", spec.get("L"))
     dt = override.get("dt", spec.get("dt"))
+    if spec["cls"].startswith("Normalized"):
+        # documented workflow: normalized coefficients are what the public normalize_* helpers return.  The values
+        # pass through the helper with domain_extent = dt = 1 (numerically the identity), so that the OBJECT the
+        # helper returns (tuple, not a one-shot iterator, ...) is what the stepper receives
+        G = __import__("exponax").stepper.generic
+        for k_, fn_ in (("normalized_linear_coefficients", G.normalize_coefficients), ("normalized_polynomial_coefficients", G.normalize_polynomial_scales)):
+            if k_ in kw and isinstance(kw[k_], tuple):
+                kw[k_] = fn_(kw[k_], domain_extent=1.0, dt=1.0)
     def _floatify(v):
         if isinstance(v, bool) or not isinstance(v, int):
             return tuple(_floatify(x) for x in v) if isinstance(v, tuple) else v
@@ -105,7 +113,10 @@ def build(spec, **override):
             # the oracles only compare values
             kwf = {k: (_floatify(v) if k not in ("injection_mode", "order", "num_circle_points") else v) for k, v in kw.items()}
             Lf = float(L) if isinstance(L, int) and not isinstance(L, bool) else L
-            if kwf == kw and Lf is L:
+            def _has_int(v):
+                return (isinstance(v, int) and not isinstance(v, bool)) or (isinstance(v, tuple) and any(_has_int(x) for x in v))
+
+            if not (_has_int(L) or any(_has_int(v) for k, v in kw.items() if k not in ("injection_mode", "order", "num_circle_points"))):
                 raise
             return cls(D, Lf, N, dt, **kwf)
 
